@@ -10,5 +10,6 @@ ASM=$(cd /repo && go list -m -f '{{.Dir}}' github.com/segmentio/asm 2>/dev/null 
 .bin/extract /repo "$ASM/ascii" lean/Enc/Gen/Consts.lean .bin/anchors.json
 (cd lean && lake build Enc encdriver)
 cp /repo/go.sum harness/go.sum
-(cd harness && go build -tags verif -o ../.bin/vh-default . && go build -tags "verif purego" -o ../.bin/vh-purego .)
+(cd harness && go build -tags verif -o ../.bin/vh-default . && go build -tags "verif purego" -o ../.bin/vh-purego . &&
+  CGO_ENABLED=1 go build -race -tags verif -o ../.bin/vh-race .)
 echo setup-ok
